@@ -242,6 +242,19 @@ class Table:
                             self.seen_bool.setdefault(key, self._label(kind, key))
                         elif kind == "enum":
                             self.seen_enum[key] = True
+        # comparisons made by a trait call whose result is kept in a local (`last_interval > *interval` on Durations in an inlined helper)
+        for blk in self.body.blocks:
+            if blk.cleanup or blk.term.k != "call" or blk.term.dest is None or blk.term.dest[1] or blk.term.dest[0] == 0:
+                continue
+            if re.search(r"Partial(Ord|Eq)(<.*>)?>?::(lt|le|gt|ge|eq|ne)$", blk.term.callee_path() or ""):
+                for f in facts_of(self.x.call_expr(blk.i, blk.term, self.x.depth), True):
+                    kind, key, fn = self.canon(f)
+                    if kind == "sign":
+                        self.seen_sign.setdefault(key, self._label(kind, key))
+                    elif kind == "bool":
+                        self.seen_bool.setdefault(key, self._label(kind, key))
+                    elif kind == "enum":
+                        self.seen_enum[key] = True
         # returned comparison expressions
         for blk in self.body.blocks:
             if blk.cleanup:
@@ -391,6 +404,10 @@ class Table:
                 lvd2 = dict(lv)
                 if t.dest is not None and not t.dest[1]:
                     lvd2.pop(t.dest[0], None)
+                    if t.dest[0] != 0 and re.search(r"Partial(Ord|Eq)(<.*>)?>?::(lt|le|gt|ge|eq|ne)$", cp):
+                        r_ = self._eval_ret(self.x.call_expr(blk.i, t, self.x.depth), sc)
+                        if isinstance(r_, bool):
+                            lvd2[t.dest[0]] = r_
                     # `?` on a tracked Ok(..)/Err(..)/Some(..)/None
                     if re.search(r"Try>?::branch$|::branch$", cp.replace(" ", "")) and t.args and t.args[0].place is not None and not t.args[0].place[1]:
                         tv = dict(lv).get(t.args[0].place[0])
